@@ -254,14 +254,15 @@ def gen_model(rng):
     if rng.random() < 0.4:
         items.append({"t": "var", "name": "pi", "role": "param", "fam": "Beta", "args": prior_args(rng, "Beta"),
                       "shape": [], "per_obs": True})
-        items.append({"t": "var", "name": "z", "role": str(rng.choice(["none", "obs"])), "fam": "Bernoulli",
+        items.append({"t": "var", "name": "z", "role": str(rng.choice(["none", "obs", "both"])), "fam": "Bernoulli",
                       "args": {"probs": {"v": "pi"}}, "shape": [3], "per_obs": bool(rng.random() < 0.5)})
     if rng.random() < 0.35:
         # a distribution without a variable, evaluated at an intermediate node
         items.append({"t": "freedist", "name": "free_lp", "fam": "Normal", "args": {"loc": {"c": 0.0}, "scale": {"c": 2.0}},
                       "at": eta, "per_obs": bool(rng.random() < 0.5)})
     if rng.random() < 0.3:
-        items.append({"t": "var", "name": "w", "role": "none", "fam": "Normal", "args": {"loc": mu0, "scale": {"c": 1.5}},
+        # ("both": flagged as parameter AND observed - it then counts in the log-prior and in the log-likelihood)
+        items.append({"t": "var", "name": "w", "role": str(rng.choice(["none", "both"])), "fam": "Normal", "args": {"loc": mu0, "scale": {"c": 1.5}},
                       "shape": [2], "per_obs": bool(rng.random() < 0.5)})
     if rng.random() < 0.4:
         # a leaf weak variable with its own distribution: nothing else consumes it, so it is reachable
@@ -269,7 +270,7 @@ def gen_model(rng):
         items.append({"t": "calc", "name": "zw", "op": "affine", "args": [{"v": "theta"}],
                       "extra": {"a": float(rng.integers(-1, 2)), "b": float(rng.choice([0.5, 2.0]))}, "as_var": True,
                       "dist": {"fam": "Normal", "args": {"loc": {"c": 0.0}, "scale": {"c": 3.0}},
-                               "role": str(rng.choice(["none", "param", "obs"])), "per_obs": bool(rng.random() < 0.5)}})
+                               "role": str(rng.choice(["none", "param", "obs", "both"])), "per_obs": bool(rng.random() < 0.5)}})
     user = {}
     r = rng.random()
     if r < 0.06:
@@ -320,9 +321,9 @@ def build(desc, x64=False, flip_per_obs=None, initial=None, mistakes=None):
             dist.per_obs = po
             dtype = ft
             v = lsl.Var(jnp.asarray(val, dtype), dist, name=it["name"])
-            if it["role"] == "param":
+            if it["role"] in ("param", "both"):
                 v.parameter = True
-            elif it["role"] == "obs":
+            if it["role"] in ("obs", "both"):
                 v.observed = True
             objs[it["name"]] = v
             if it.get("transform") in (True, "exp"):
@@ -342,9 +343,9 @@ def build(desc, x64=False, flip_per_obs=None, initial=None, mistakes=None):
                     wd.per_obs = dd["per_obs"] != (it["name"] in flip)
                 wv = lsl.Var(c, wd, name=it["name"])
                 if it.get("dist"):
-                    if it["dist"]["role"] == "param":
+                    if it["dist"]["role"] in ("param", "both"):
                         wv.parameter = True
-                    elif it["dist"]["role"] == "obs":
+                    if it["dist"]["role"] in ("obs", "both"):
                         wv.observed = True
                 objs[it["name"]] = wv
             else:
@@ -441,11 +442,11 @@ def oracle(desc, values):
                 terms = np.asarray(logpdf(dd["fam"], env[it["name"]], {k: ref(v) for k, v in dd["args"].items()}), np.float64)
                 lp += float(terms.sum())
                 abs_terms += float(np.abs(terms).sum())
-                if dd["role"] == "param":
+                if dd["role"] in ("param", "both"):
                     lpr += float(terms.sum())
-                elif dd["role"] == "obs":
+                if dd["role"] in ("obs", "both"):
                     ll += float(terms.sum())
-                else:
+                if dd["role"] not in ("param", "obs"):
                     all_classified = False
         elif it["t"] == "var":
             a = {k: (v["c"] if ("c" in v and k == "rank") else ref(v)) for k, v in it["args"].items()}
@@ -462,11 +463,11 @@ def oracle(desc, values):
                 at += float(np.abs(lj).sum())
             lp += tot
             abs_terms += at
-            if it["role"] == "param":
+            if it["role"] in ("param", "both"):
                 lpr += tot
-            elif it["role"] == "obs":
+            if it["role"] in ("obs", "both"):
                 ll += tot
-            else:
+            if it["role"] not in ("param", "obs"):
                 all_classified = False
         elif it["t"] == "freedist":
             a = {k: ref(v) for k, v in it["args"].items()}
